@@ -360,9 +360,8 @@ theorem condition_ok_refines_absent (cfg : Sp.Cfg) (env : Sp.Env) (st : Sp.St) (
       (.value (.bool true), some (.obj (selfCondFields .none cfg.skew cfg.entityId cfg.extSchemas st.notOnOrAfter))) := by
   refine ⟨by unfold Sp.conditionOk; rw [ha], rfl⟩
 
-/-- The full statement (every combination of present / empty / absent NotBefore and NotOnOrAfter): proved above for
-    "both present" and for "no Conditions element"; the remaining combinations are covered by the correspondence run of
-    the interpreter against CPython and of the model against the service provider, not by a theorem. -/
+/-- The full statement (every combination of present / empty / absent NotBefore and NotOnOrAfter); proved below as
+    `condition_ok_refines` from the four cases "both present", "only NotBefore", "only NotOnOrAfter", "neither". -/
 def condition_ok_refines_full : Prop :=
   ∀ (cfg : Sp.Cfg) (env : Sp.Env) (st : Sp.St) (a : Sp.Assertion) (tm : String → Int) (nb nooa : Option String)
     (auds : List (List (Option String))) (extra : List (Option String)),
@@ -383,5 +382,363 @@ def condition_ok_refines_full : Prop :=
       (runMethod Sp.pyStrip (pyExt0 env.now tm) AuthnResponse_condition_ok
         [.obj (selfCondFields (condV nb nooa auds extra) cfg.skew cfg.entityId cfg.extSchemas st.notOnOrAfter), .bool false]).1
           = .raised (errClass e)
+
+/-- statements 7-9 of `condition_ok` (audience test, extension conditions, `return True`) from any environment that
+    binds `conditions`, `lax = False` and `self` with the fields they read -/
+theorem cond_tail (now : Int) (tm : String → Int) (envT : Env) (cvf sfT : List (String × Val)) (me : String)
+    (schemas : List String) (auds : List (List (Option String))) (extra : List (Option String))
+    (hC : lookup envT "conditions" = some (.obj cvf))
+    (hAud : lookup cvf "audience_restriction" = some (.list (auds.map encR)))
+    (hCond : lookup cvf "condition" = some (.list (extra.map encCond)))
+    (hL : lookup envT "lax" = some (.bool false))
+    (hS : lookup envT "self" = some (.obj sfT))
+    (hMe : lookup sfT "entity_id" = some (.str me))
+    (hSch : lookup sfT "extension_schema" = some (.obj (schemas.map (fun s => (s, Val.none))))) :
+    (obsM (evalBlock Sp.pyStrip (pyExt0 now tm) 58 envT [cS7, cS8, cS9])).1 =
+      (if Sp.forMe me (toModel auds) && extra.all (extKnown' schemas) then .value (.bool true) else .raised "Exception") ∧
+    (Sp.forMe me (toModel auds) = true → extra.all (extKnown' schemas) = true →
+      (obsM (evalBlock Sp.pyStrip (pyExt0 now tm) 58 envT [cS7, cS8, cS9])).2 = some (.obj sfT)) := by
+  let ext := pyExt0 now tm
+  have hfm : pyExt now tm true (.ok (.bool true)) "for_me" [.obj cvf, .str me] = .ok (.bool (Sp.forMe me (toModel auds))) :=
+    forme_ext now tm true (.ok (.bool true)) me auds cvf hAud
+  have c7 : evalExpr Sp.pyStrip ext 55 envT (.call "for_me" [(.name "conditions"), (.attr (.name "self") "entity_id")]) =
+      pyExt now tm true (.ok (.bool true)) "for_me" [.obj cvf, .str me] := by
+    simp [evalExpr, evalArgs, hC, hS, hMe, builtin, ext, pyExt0]
+  have hlax : evalExpr Sp.pyStrip ext 54 envT (.not (.name "lax")) = .ok (.bool true) := by
+    simp [evalExpr, hL, truthy]
+  show (obsM (evalBlock Sp.pyStrip ext 58 envT [cS7, cS8, cS9])).1 = _ ∧ (_ → _ → (obsM (evalBlock Sp.pyStrip ext 58 envT [cS7, cS8, cS9])).2 = _)
+  cases hf : Sp.forMe me (toModel auds) with
+  | false =>
+    have h7 : evalStmt Sp.pyStrip ext 57 envT cS7 = .raise "Exception" envT := by
+      rw [cS7, evalStmt_ifs, evalExpr_not, c7, hfm, hf]
+      simp only [truthy, Bool.not_false, if_true]
+      rw [evalBlock_cons, evalStmt_ifs, hlax]
+      simp [truthy, evalBlock, evalStmt]
+    rw [evalBlock_cons, h7]
+    simp [obsM]
+  | true =>
+    have h7 : evalStmt Sp.pyStrip ext 57 envT cS7 = .normal envT := by
+      rw [cS7, evalStmt_ifs, evalExpr_not, c7, hfm, hf]
+      simp [truthy, evalBlock]
+    rw [evalBlock_cons, h7]; simp only []
+    have hloop := cond_loop 44 ext sfT schemas hSch extra envT hS
+    have h8 : evalStmt Sp.pyStrip ext 56 envT cS8 =
+        (if extra.isEmpty then Flow.normal envT
+         else forLoop (condB 44 ext) (condE 44 ext) (extra.map encCond) envT) := by
+      have hcc : evalExpr Sp.pyStrip ext 55 envT (.attr (.name "conditions") "condition") = .ok (.list (extra.map encCond)) := by
+        simp [evalExpr, hC, hCond]
+      rw [cS8, evalStmt_ifs, hcc]
+      cases extra with
+      | nil => simp [truthy, evalBlock]
+      | cons t ts =>
+        simp only [truthy, List.map_cons, List.isEmpty_cons, Bool.not_false, if_true, Bool.false_eq_true, if_false]
+        have hcc' : evalExpr Sp.pyStrip ext 53 envT (.attr (.name "conditions") "condition") = .ok (.list ((t :: ts).map encCond)) := by
+          simp [evalExpr, hC, hCond]
+        have : evalBlock Sp.pyStrip ext 55 envT [(.for "cond" (.attr (.name "conditions") "condition") condLoopBody [])] =
+            (match (match evalExpr Sp.pyStrip ext 53 envT (.attr (.name "conditions") "condition") with
+                    | .ok (.list vs) => forLoop (condB 44 ext) (condE 44 ext) vs envT
+                    | .ok .none => .raise "TypeError" envT
+                    | .ok _ => .stuck "iteration over a non-list"
+                    | .raise c => .raise c envT
+                    | .stuck w => .stuck w) with
+             | .normal e => Flow.normal e
+             | other => other) := rfl
+        rw [this, hcc']
+        simp only [List.map_cons]
+        generalize forLoop (condB 44 ext) (condE 44 ext) (encCond t :: ts.map encCond) envT = F
+        cases F <;> rfl
+    rw [evalBlock_cons, h8]
+    cases hall : extra.all (extKnown' schemas) with
+    | true =>
+      obtain ⟨e, hl, hSe⟩ := hloop.1 hall
+      by_cases hemp : extra.isEmpty = true
+      · simp only [hemp, if_true]
+        refine ⟨rfl, fun _ _ => ?_⟩
+        show (obsM (Flow.ret (.bool true) envT)).2 = _
+        simp [obsM, hS]
+      · simp only [hemp, if_false, hl]
+        refine ⟨rfl, fun _ _ => ?_⟩
+        show (obsM (Flow.ret (.bool true) e)).2 = _
+        simp [obsM, hSe]
+    | false =>
+      obtain ⟨e, hl⟩ := hloop.2 hall
+      have hemp : extra.isEmpty = false := by
+        cases extra with
+        | nil => simp at hall
+        | cons _ _ => rfl
+      simp only [hemp, Bool.false_eq_true, if_false, hl]
+      simp [obsM]
+
+
+/-- the conclusion of the refinement statement, for given lexical bounds -/
+def CondGoal (cfg : Sp.Cfg) (env : Sp.Env) (st : Sp.St) (a : Sp.Assertion) (tm : String → Int) (nb nooa : Option String)
+    (auds : List (List (Option String))) (extra : List (Option String)) : Prop :=
+  match Sp.conditionOk cfg env st a with
+  | .ok st' =>
+    (runMethod Sp.pyStrip (pyExt0 env.now tm) AuthnResponse_condition_ok
+      [.obj (selfCondFields (condV nb nooa auds extra) cfg.skew cfg.entityId cfg.extSchemas st.notOnOrAfter), .bool false]).1
+        = .value (.bool true) ∧
+    nooaOf (runMethod Sp.pyStrip (pyExt0 env.now tm) AuthnResponse_condition_ok
+      [.obj (selfCondFields (condV nb nooa auds extra) cfg.skew cfg.entityId cfg.extSchemas st.notOnOrAfter), .bool false]).2
+        = some (.int st'.notOnOrAfter)
+  | .error .conditionNotOk =>
+    (runMethod Sp.pyStrip (pyExt0 env.now tm) AuthnResponse_condition_ok
+      [.obj (selfCondFields (condV nb nooa auds extra) cfg.skew cfg.entityId cfg.extSchemas st.notOnOrAfter), .bool false]).1
+        = .value (.bool false)
+  | .error e =>
+    (runMethod Sp.pyStrip (pyExt0 env.now tm) AuthnResponse_condition_ok
+      [.obj (selfCondFields (condV nb nooa auds extra) cfg.skew cfg.entityId cfg.extSchemas st.notOnOrAfter), .bool false]).1
+        = .raised (errClass e)
+
+/-- neither bound has a value (absent or empty attribute) -/
+theorem cond_neither (cfg : Sp.Cfg) (env : Sp.Env) (st : Sp.St) (a : Sp.Assertion) (tm : String → Int)
+    (nb nooa : Option String) (hnb : nb = none ∨ nb = some "") (hnooa : nooa = none ∨ nooa = some "")
+    (auds : List (List (Option String))) (extra : List (Option String))
+    (ha : a.conditions = some { nb := none, nooa := none, audiences := toModel auds, extra := extra }) :
+    CondGoal cfg env st a tm nb nooa auds extra := by
+  unfold CondGoal Sp.conditionOk
+  rw [ha]
+  simp only [Option.isNone_none, Bool.true_and, Option.isSome_none, Bool.false_and, Bool.false_eq_true, if_false,
+    Sp.optExpired, Sp.optPremature, Option.getD_none]
+  rw [any_unknown_eq]
+  by_cases hemp : (toModel auds).isEmpty && extra.isEmpty
+  · -- nothing in the element: accepted at `if not conditions.keyswv()`
+    have ha' : auds = [] := by
+      cases auds with
+      | nil => rfl
+      | cons _ _ => simp [toModel] at hemp
+    have he' : extra = [] := by
+      cases extra with
+      | nil => rfl
+      | cons _ _ => simp at hemp
+    subst ha' he'
+    simp only [hemp, if_true]
+    rcases hnb with rfl | rfl <;> rcases hnooa with rfl | rfl <;> exact ⟨rfl, rfl⟩
+  · simp only [hemp, Bool.false_eq_true, if_false]
+    -- statements 4-6 change nothing: the tail runs in the initial environment
+    let sf0 := selfCondFields (condV nb nooa auds extra) cfg.skew cfg.entityId cfg.extSchemas st.notOnOrAfter
+    let env2 : Env := [("conditions", condV nb nooa auds extra), ("lax", .bool false), ("self", .obj sf0)]
+    have hhead : runMethod Sp.pyStrip (pyExt0 env.now tm) AuthnResponse_condition_ok [.obj sf0, .bool false] =
+        obsM (evalBlock Sp.pyStrip (pyExt0 env.now tm) 58 env2 [cS7, cS8, cS9]) := by
+      rcases hnb with rfl | rfl <;> rcases hnooa with rfl | rfl <;>
+        (cases auds with
+         | cons _ _ => rfl
+         | nil => cases extra with
+           | cons _ _ => rfl
+           | nil => exact absurd rfl hemp)
+    have ht := cond_tail env.now tm env2 _ sf0 cfg.entityId cfg.extSchemas auds extra rfl rfl rfl rfl rfl rfl rfl
+    show (match (if (!Sp.forMe cfg.entityId (toModel auds)) = true then Except.error Sp.Err.audience
+            else if (!extra.all (extKnown' cfg.extSchemas)) = true then Except.error Sp.Err.unknownCondition else Except.ok st : Except Sp.Err Sp.St) with
+      | .ok st' => (runMethod Sp.pyStrip (pyExt0 env.now tm) AuthnResponse_condition_ok [.obj sf0, .bool false]).1 = .value (.bool true) ∧
+          nooaOf (runMethod Sp.pyStrip (pyExt0 env.now tm) AuthnResponse_condition_ok [.obj sf0, .bool false]).2 = some (.int st'.notOnOrAfter)
+      | .error .conditionNotOk => (runMethod Sp.pyStrip (pyExt0 env.now tm) AuthnResponse_condition_ok [.obj sf0, .bool false]).1 = .value (.bool false)
+      | .error e => (runMethod Sp.pyStrip (pyExt0 env.now tm) AuthnResponse_condition_ok [.obj sf0, .bool false]).1 = .raised (errClass e))
+    rw [hhead]
+    cases hf : Sp.forMe cfg.entityId (toModel auds) <;> cases hall : extra.all (extKnown' cfg.extSchemas) <;>
+      simp only [hf, hall, Bool.and_true, Bool.and_false, Bool.false_and, Bool.true_and, Bool.false_eq_true, if_false, if_true,
+        Bool.not_true, Bool.not_false] at ht ⊢
+    · exact ht.1
+    · exact ht.1
+    · exact ht.1
+    · refine ⟨ht.1, ?_⟩
+      rw [ht.2 trivial trivial]
+      rfl
+
+/-- only NotBefore has a value -/
+theorem cond_nb_only (cfg : Sp.Cfg) (env : Sp.Env) (st : Sp.St) (a : Sp.Assertion) (tm : String → Int)
+    (x : String) (hx : x ≠ "") (nooa : Option String) (hnooa : nooa = none ∨ nooa = some "")
+    (auds : List (List (Option String))) (extra : List (Option String))
+    (ha : a.conditions = some { nb := some (tm x), nooa := none, audiences := toModel auds, extra := extra }) :
+    CondGoal cfg env st a tm (some x) nooa auds extra := by
+  have hx' : (x != "") = true := by simpa using hx
+  unfold CondGoal Sp.conditionOk
+  rw [ha]
+  simp only [Option.isNone_some, Bool.false_and, Bool.false_eq_true, if_false, Option.isSome_some, Option.isSome_none,
+    Bool.and_false, Bool.true_and, Sp.optExpired, Sp.optPremature, Option.getD_none]
+  rw [any_unknown_eq]
+  have hvb := vb_ext env.now tm true (.ok (.bool true)) cfg.skew x hx
+  have htr : truthy (optStr nooa) = false := by rcases hnooa with rfl | rfl <;> rfl
+  have hts : truthy (.str x) = true := by simp [truthy, hx']
+  exact (by
+    let ext := pyExt0 env.now tm
+    let cv := condV (some x) nooa auds extra
+    let sf0 := selfCondFields cv cfg.skew cfg.entityId cfg.extSchemas st.notOnOrAfter
+    let env2 : Env := [("conditions", cv), ("lax", .bool false), ("self", .obj sf0)]
+    have hrun : runMethod Sp.pyStrip ext AuthnResponse_condition_ok [.obj sf0, .bool false] =
+        obsM (evalBlock Sp.pyStrip ext 61 env2 (AuthnResponse_condition_ok.body.drop 3)) := rfl
+    have h4 : evalStmt Sp.pyStrip ext 60 env2 cS4 = .normal env2 := by
+      have hk : evalExpr Sp.pyStrip ext 58 env2 (.callm (.name "conditions") "keyswv" []) = keyswv cv := rfl
+      rw [cS4, evalStmt_ifs, evalExpr_not, hk]
+      simp [keyswv, cv, condV, optStr, truthy, hx', evalBlock]
+    have h5 : evalStmt Sp.pyStrip ext 59 env2 cS5 = .normal env2 := by
+      have e1 : evalExpr Sp.pyStrip ext 57 env2 (.attr (.name "conditions") "not_before") = .ok (.str x) := rfl
+      have e2 : evalExpr Sp.pyStrip ext 57 env2 (.attr (.name "conditions") "not_on_or_after") = .ok (optStr nooa) := rfl
+      rw [cS5, evalStmt_ifs, evalExpr_and, e1]; simp only [hts, if_true]
+      rw [e2]; simp only [htr, Bool.false_eq_true, if_false]
+      rfl
+    have c2 : evalExpr Sp.pyStrip ext 52 env2 (.call "validate_before" [(.attr (.name "conditions") "not_before"), (.attr (.name "self") "timeslack")]) =
+        pyExt env.now tm true (.ok (.bool true)) "validate_before" [.str x, .int cfg.skew] := rfl
+    have t2 : evalExpr Sp.pyStrip ext 54 env2 (.attr (.name "conditions") "not_before") = .ok (.str x) := rfl
+    have hs1 : evalStmt Sp.pyStrip ext 56 env2 ((.ifs (.attr (.name "conditions") "not_on_or_after") [
+        (.setattr "self" "not_on_or_after" (.call "validate_on_or_after" [(.attr (.name "conditions") "not_on_or_after"), (.attr (.name "self") "timeslack")]))] [])) =
+        .normal env2 := by
+      have t1 : evalExpr Sp.pyStrip ext 55 env2 (.attr (.name "conditions") "not_on_or_after") = .ok (optStr nooa) := rfl
+      rw [evalStmt_ifs, t1]; simp only [htr, Bool.false_eq_true, if_false]
+      rfl
+    have ht := cond_tail env.now tm env2 _ sf0 cfg.entityId cfg.extSchemas auds extra rfl rfl rfl rfl rfl rfl rfl
+    show (match (if (!Sp.beforeOk env.now cfg.skew (tm x)) = true then Except.error Sp.Err.premature
+            else if (!Sp.forMe cfg.entityId (toModel auds)) = true then Except.error Sp.Err.audience
+            else if (!extra.all (extKnown' cfg.extSchemas)) = true then Except.error Sp.Err.unknownCondition else Except.ok st : Except Sp.Err Sp.St) with
+      | .ok st' => (runMethod Sp.pyStrip ext AuthnResponse_condition_ok [.obj sf0, .bool false]).1 = .value (.bool true) ∧
+          nooaOf (runMethod Sp.pyStrip ext AuthnResponse_condition_ok [.obj sf0, .bool false]).2 = some (.int st'.notOnOrAfter)
+      | .error .conditionNotOk => (runMethod Sp.pyStrip ext AuthnResponse_condition_ok [.obj sf0, .bool false]).1 = .value (.bool false)
+      | .error e => (runMethod Sp.pyStrip ext AuthnResponse_condition_ok [.obj sf0, .bool false]).1 = .raised (errClass e))
+    rw [hrun, cond_shape, evalBlock_cons, h4]; simp only []
+    rw [evalBlock_cons, h5]; simp only []
+    by_cases hb : Sp.beforeOk env.now cfg.skew (tm x) = true
+    · simp only [hb, if_true] at hvb
+      have h6 : evalStmt Sp.pyStrip ext 58 env2 cS6 = .normal env2 := by
+        rw [cS6, evalStmt_try, evalBlock_cons, hs1]; simp only []
+        rw [evalBlock_cons, evalStmt_ifs, t2]; simp only [hts, if_true]
+        rw [evalBlock_cons, evalStmt_expr, c2, hvb]
+        rfl
+      rw [evalBlock_cons, h6]; simp only []
+      simp only [hb, Bool.not_true, Bool.false_eq_true, if_false]
+      cases hf : Sp.forMe cfg.entityId (toModel auds) <;> cases hall : extra.all (extKnown' cfg.extSchemas) <;>
+        simp only [hf, hall, Bool.and_true, Bool.and_false, Bool.false_and, Bool.true_and, Bool.false_eq_true, if_false, if_true,
+          Bool.not_true, Bool.not_false] at ht ⊢
+      · exact ht.1
+      · exact ht.1
+      · exact ht.1
+      · refine ⟨ht.1, ?_⟩
+        rw [ht.2 trivial trivial]
+        rfl
+    · have hb' : Sp.beforeOk env.now cfg.skew (tm x) = false := by simpa using hb
+      simp only [hb', Bool.false_eq_true, if_false] at hvb
+      have h6 : ∃ e, evalStmt Sp.pyStrip ext 58 env2 cS6 = .raise "ToEarly" e := by
+        refine ⟨setVar env2 excVar (.str "ToEarly"), ?_⟩
+        rw [cS6, evalStmt_try, evalBlock_cons, hs1]; simp only []
+        rw [evalBlock_cons, evalStmt_ifs, t2]; simp only [hts, if_true]
+        rw [evalBlock_cons, evalStmt_expr, c2, hvb]
+        rfl
+      obtain ⟨e, h6⟩ := h6
+      rw [evalBlock_cons, h6]
+      simp [hb', obsM, errClass])
+
+/-- only NotOnOrAfter has a value -/
+theorem cond_nooa_only (cfg : Sp.Cfg) (env : Sp.Env) (st : Sp.St) (a : Sp.Assertion) (tm : String → Int)
+    (y : String) (hy : y ≠ "") (nb : Option String) (hnb : nb = none ∨ nb = some "")
+    (auds : List (List (Option String))) (extra : List (Option String))
+    (ha : a.conditions = some { nb := none, nooa := some (tm y), audiences := toModel auds, extra := extra }) :
+    CondGoal cfg env st a tm nb (some y) auds extra := by
+  have hy' : (y != "") = true := by simpa using hy
+  unfold CondGoal Sp.conditionOk
+  rw [ha]
+  simp only [Option.isNone_some, Option.isNone_none, Bool.true_and, Bool.false_and, Bool.false_eq_true, if_false, Option.isSome_some,
+    Option.isSome_none, Bool.and_false, Sp.optExpired, Sp.optPremature, Option.getD_some]
+  rw [any_unknown_eq]
+  have hvo := voa_ext env.now tm true (.ok (.bool true)) cfg.skew (some y)
+  simp only [hy, if_false, optStr] at hvo
+  have htr : truthy (optStr nb) = false := by rcases hnb with rfl | rfl <;> rfl
+  have hts : truthy (.str y) = true := by simp [truthy, hy']
+  exact (by
+    let ext := pyExt0 env.now tm
+    let cv := condV nb (some y) auds extra
+    let sf0 := selfCondFields cv cfg.skew cfg.entityId cfg.extSchemas st.notOnOrAfter
+    let env2 : Env := [("conditions", cv), ("lax", .bool false), ("self", .obj sf0)]
+    let sf1 := setField sf0 "not_on_or_after" (.int (tm y))
+    let env3 : Env := setVar env2 "self" (.obj sf1)
+    have hrun : runMethod Sp.pyStrip ext AuthnResponse_condition_ok [.obj sf0, .bool false] =
+        obsM (evalBlock Sp.pyStrip ext 61 env2 (AuthnResponse_condition_ok.body.drop 3)) := rfl
+    have h4 : evalStmt Sp.pyStrip ext 60 env2 cS4 = .normal env2 := by
+      have hk : evalExpr Sp.pyStrip ext 58 env2 (.callm (.name "conditions") "keyswv" []) = keyswv cv := rfl
+      rw [cS4, evalStmt_ifs, evalExpr_not, hk]
+      rcases hnb with rfl | rfl <;> simp [keyswv, cv, condV, optStr, truthy, hy', evalBlock]
+    have h5 : evalStmt Sp.pyStrip ext 59 env2 cS5 = .normal env2 := by
+      have e1 : evalExpr Sp.pyStrip ext 57 env2 (.attr (.name "conditions") "not_before") = .ok (optStr nb) := rfl
+      rw [cS5, evalStmt_ifs, evalExpr_and, e1]; simp only [htr, Bool.false_eq_true, if_false]
+      rfl
+    have c1 : evalExpr Sp.pyStrip ext 53 env2 (.call "validate_on_or_after" [(.attr (.name "conditions") "not_on_or_after"), (.attr (.name "self") "timeslack")]) =
+        pyExt env.now tm true (.ok (.bool true)) "validate_on_or_after" [.str y, .int cfg.skew] := rfl
+    have t1 : evalExpr Sp.pyStrip ext 55 env2 (.attr (.name "conditions") "not_on_or_after") = .ok (.str y) := rfl
+    have hs2 : evalStmt Sp.pyStrip ext 55 env3 ((.ifs (.attr (.name "conditions") "not_before") [
+        (.expr (.call "validate_before" [(.attr (.name "conditions") "not_before"), (.attr (.name "self") "timeslack")]))] [])) =
+        .normal env3 := by
+      have t2 : evalExpr Sp.pyStrip ext 54 env3 (.attr (.name "conditions") "not_before") = .ok (optStr nb) := rfl
+      rw [evalStmt_ifs, t2]; simp only [htr, Bool.false_eq_true, if_false]
+      rfl
+    have ht := cond_tail env.now tm env3 _ sf1 cfg.entityId cfg.extSchemas auds extra rfl rfl rfl rfl rfl rfl rfl
+    show (match (if (!Sp.onOrAfterOk env.now cfg.skew (tm y)) = true then Except.error Sp.Err.expired
+            else if (!Sp.forMe cfg.entityId (toModel auds)) = true then Except.error Sp.Err.audience
+            else if (!extra.all (extKnown' cfg.extSchemas)) = true then Except.error Sp.Err.unknownCondition
+            else Except.ok { st with notOnOrAfter := tm y } : Except Sp.Err Sp.St) with
+      | .ok st' => (runMethod Sp.pyStrip ext AuthnResponse_condition_ok [.obj sf0, .bool false]).1 = .value (.bool true) ∧
+          nooaOf (runMethod Sp.pyStrip ext AuthnResponse_condition_ok [.obj sf0, .bool false]).2 = some (.int st'.notOnOrAfter)
+      | .error .conditionNotOk => (runMethod Sp.pyStrip ext AuthnResponse_condition_ok [.obj sf0, .bool false]).1 = .value (.bool false)
+      | .error e => (runMethod Sp.pyStrip ext AuthnResponse_condition_ok [.obj sf0, .bool false]).1 = .raised (errClass e))
+    rw [hrun, cond_shape, evalBlock_cons, h4]; simp only []
+    rw [evalBlock_cons, h5]; simp only []
+    by_cases ho : Sp.onOrAfterOk env.now cfg.skew (tm y) = true
+    · simp only [ho, if_true] at hvo
+      have hs1 : evalStmt Sp.pyStrip ext 56 env2 ((.ifs (.attr (.name "conditions") "not_on_or_after") [
+          (.setattr "self" "not_on_or_after" (.call "validate_on_or_after" [(.attr (.name "conditions") "not_on_or_after"), (.attr (.name "self") "timeslack")]))] [])) =
+          .normal env3 := by
+        rw [evalStmt_ifs, t1]; simp only [hts, if_true]
+        rw [evalBlock_cons, evalStmt_setattr, c1, hvo]
+        rfl
+      have h6 : evalStmt Sp.pyStrip ext 58 env2 cS6 = .normal env3 := by
+        rw [cS6, evalStmt_try, evalBlock_cons, hs1]; simp only []
+        rw [evalBlock_cons, hs2]
+        rfl
+      rw [evalBlock_cons, h6]; simp only []
+      simp only [ho, Bool.not_true, Bool.false_eq_true, if_false]
+      cases hf : Sp.forMe cfg.entityId (toModel auds) <;> cases hall : extra.all (extKnown' cfg.extSchemas) <;>
+        simp only [hf, hall, Bool.and_true, Bool.and_false, Bool.false_and, Bool.true_and, Bool.false_eq_true, if_false, if_true,
+          Bool.not_true, Bool.not_false] at ht ⊢
+      · exact ht.1
+      · exact ht.1
+      · exact ht.1
+      · refine ⟨ht.1, ?_⟩
+        rw [ht.2 trivial trivial]
+        rfl
+    · have ho' : Sp.onOrAfterOk env.now cfg.skew (tm y) = false := by simpa using ho
+      simp only [ho', Bool.false_eq_true, if_false] at hvo
+      have h6 : ∃ e, evalStmt Sp.pyStrip ext 58 env2 cS6 = .raise "ResponseLifetimeExceed" e := by
+        refine ⟨setVar env2 excVar (.str "ResponseLifetimeExceed"), ?_⟩
+        rw [cS6, evalStmt_try, evalBlock_cons, evalStmt_ifs, t1]; simp only [hts, if_true]
+        rw [evalBlock_cons, evalStmt_setattr, c1, hvo]
+        rfl
+      obtain ⟨e, h6⟩ := h6
+      rw [evalBlock_cons, h6]
+      simp [ho', obsM, errClass])
+
+/-- **`AuthnResponse.condition_ok` refines `Sp.conditionOk`** — the full statement: for every Conditions element
+    (NotBefore / NotOnOrAfter each absent, empty or any lexical value; any audience restrictions; any extension
+    conditions), every clock, skew, own entityID, schema set and prior state, in strict mode. -/
+theorem condition_ok_refines : condition_ok_refines_full := by
+  intro cfg env st a tm nb nooa auds extra ha
+  show CondGoal cfg env st a tm nb nooa auds extra
+  rcases nb with _ | x
+  · rcases nooa with _ | y
+    · exact cond_neither cfg env st a tm none none (Or.inl rfl) (Or.inl rfl) auds extra (by simpa [lexTime] using ha)
+    · by_cases hy : y = ""
+      · subst hy
+        exact cond_neither cfg env st a tm none (some "") (Or.inl rfl) (Or.inr rfl) auds extra (by simpa [lexTime] using ha)
+      · exact cond_nooa_only cfg env st a tm y hy none (Or.inl rfl) auds extra (by simpa [lexTime, hy] using ha)
+  · by_cases hx : x = ""
+    · subst hx
+      rcases nooa with _ | y
+      · exact cond_neither cfg env st a tm (some "") none (Or.inr rfl) (Or.inl rfl) auds extra (by simpa [lexTime] using ha)
+      · by_cases hy : y = ""
+        · subst hy
+          exact cond_neither cfg env st a tm (some "") (some "") (Or.inr rfl) (Or.inr rfl) auds extra (by simpa [lexTime] using ha)
+        · exact cond_nooa_only cfg env st a tm y hy (some "") (Or.inr rfl) auds extra (by simpa [lexTime, hy] using ha)
+    · rcases nooa with _ | y
+      · exact cond_nb_only cfg env st a tm x hx none (Or.inl rfl) auds extra (by simpa [lexTime, hx] using ha)
+      · by_cases hy : y = ""
+        · subst hy
+          exact cond_nb_only cfg env st a tm x hx (some "") (Or.inr rfl) auds extra (by simpa [lexTime, hx] using ha)
+        · exact condition_ok_refines_both cfg env st a tm x y hx hy auds extra (by simpa [lexTime, hx, hy] using ha)
+
 
 end PyTie
